@@ -1,4 +1,5 @@
 import Holpy.C14.Methods
+import Holpy.C14.Intro
 import Holpy.C14.Props
 /-
 C14 — property theorems, second file: per method, what `search` advertises against what `apply`
@@ -105,6 +106,20 @@ theorem advertised_eq_applied_forall_elim (t : Option Seq) (s s' : Proof) (id : 
 
 example : (match forwardFact s0 [0] 6 [] (some ⟨3, []⟩) with
     | .ok s' => wf s' && (sorrysList s' == [some ⟨5, []⟩]) && s'.length == 3
+    | .error _ => false) = true := by decide
+
+/-- `introduction` (suggested without `_goal`; `apply` turns the goal line into a `subproof` line
+holding the exported lines of the `intros` proof term — variables, assumptions, one gap, the closing
+`intros` line — and identifies lines of it with earlier visible ones): afterwards the goal line is no
+longer a gap, and the gaps that are newly open are among those of the new subproof. -/
+theorem advertised_eq_applied_introduction (t : Option Seq) (s s' : Proof) (id : IId) (sub : List Item)
+    (cur : Item) (hcur : findItem s id = some cur) (h : introM s id sub = .ok s') :
+    cntList t s' + cntItem t cur ≤ cntList t s + cntList t sub :=
+  cnt_introM t s s' id sub cur hcur h
+
+example : (match introM s0 [0] [.mk [0, 0] 7 [] (some ⟨6, [6]⟩) false [], .mk [0, 1] ruleSorry [] (some ⟨8, [6]⟩) false [],
+      .mk [0, 2] 4 [[0, 0], [0, 1]] (some ⟨5, []⟩) false []] with
+    | .ok s' => wf s' && (sorrysList s' == [some ⟨8, [6]⟩]) && s'.length == 2
     | .error _ => false) = true := by decide
 
 end Holpy.C14
